@@ -109,7 +109,8 @@ def mirror(tw, qf):
     targs = [Arg(a.name, to_twin_type(tw, a.ttype), list(a.bitvec)) for a in qf.args]
     tret = Arg(qf.returns.name, to_twin_type(tw, qf.returns.ttype), list(qf.returns.bitvec))
     m = tw.qlassfun.QlassF(qf.name, None, targs, tret, qf.expressions)
-    m._qcircuit = qf.circuit()
+    if hasattr(qf, "_qcircuit"):
+        m._qcircuit = qf.circuit()
     return m
 
 
